@@ -2,7 +2,7 @@
 
 Every I/O boundary of a load is intercepted from the harness (module attributes of hpotk.store._api
 are replaced by proxies; the remote services are injected): isfile, fetch, mkstemp, read, write,
-replace, load.  A `gate` is called before each boundary is executed."""
+close, replace, load.  A `gate` is called before each boundary is executed."""
 import io
 import json
 import os
@@ -97,8 +97,8 @@ class Releases(OntologyReleaseService):
 class FileProxy:
     """the file being written.  Two ways a write can fail: at write() (plan ('write', k): k bytes reach the file,
     then ENOSPC) or - the usual way for a payload smaller than the io buffer - only when the buffer is flushed at
-    close() (plan ('close', k)).  close() is a gate of its own name: a kill can land between write() and close(),
-    when the data is still in the buffer; it is not a step of the model (the model's write step is write+close)."""
+    close() (plan ('close', k)).  close() is a boundary of its own (model: PBuffered -> PWritten): a kill or another
+    loader's step can land between write() and close(), when the data is still in the io buffer."""
     def __init__(self, fh):
         self._fh = fh
         self._held = None
@@ -318,15 +318,11 @@ def run_history(payload, case, idx):
 
 
 class KillGate:
-    """kills the process before its k-th boundary; k = 'close' kills between write() and close()"""
+    """kills the process before its k-th boundary"""
     def __init__(self, k):
         self.k, self.n = k, 0
 
     def __call__(self, name):
-        if name == 'close':
-            if self.k == 'close':
-                os._exit(17)
-            return
         self.n += 1
         if self.n == self.k:
             os._exit(17)        # no flush, no cleanup: like SIGKILL
@@ -373,7 +369,7 @@ class StepGate:
     free = False
 
     def __call__(self, name):
-        if self.free or name == 'close':        # close() is not a scheduling point of the model
+        if self.free:
             return
         self.arrived.set()
         self.go.acquire()
